@@ -464,6 +464,10 @@ S.append(Schema('field_named_like_unit_rule', [], 'R', '', expect='compile', pro
     raw_ebnf="@export\nR = [tok:tok] o:Other;\ntok = 't';\nOther = 'o';\n",
     note='a field with the same name as a field-less (unit struct) rule'))
 
+S.append(Schema('g_lookahead', [Rule('R', Seq(Not(A), fb(), And(C)), skip=False, export=True)], 'R', 'ABC', n=3,
+    props=('C01', 'C02', 'C10'), extract=J(one(1, 'v.b')),
+    note='!A b:B &C (a rule with a single field is that field): also verified as generated code (layer G)'))
+
 # ---------------------------------------------------------------------------------------------- extern / context / tracing
 S.append(Schema('extern_ctx', [Rule('R', Seq(fa(), Opt(fb())), export=True)], 'R', 'AB', n=3, alphabet='x ', user_ctx='crate::ops::Ctx',
     props=('C14',), extract=J(one(0, 'v.a'), opt(1, 'v.b')),
